@@ -21,6 +21,12 @@ theorem C01_lookup_applicable (cfg : Cfg) (ms : List Meth) (hd : DistinctHandler
     ∀ id ∈ e.handlers, ∃ m ∈ ms, m.id = id ∧ applicableTo cfg.H k m = true :=
   lookup_applicable cfg ms hd.ids c k hne e h
 
+/-- (1) for the call without arguments (resolved like every other key since the `fix:` for finding D9) -/
+theorem C01_lookup_applicable_zero_args (cfg : Cfg) (ms : List Meth) (hd : DistinctHandlers ms) (c : Option Code)
+    (e : Entry) (h : pureLookup (plan cfg ms) (c, []) = .ok e) :
+    ∀ id ∈ e.handlers, ∃ m ∈ ms, m.id = id ∧ applicableTo cfg.H [] m = true :=
+  lookup_applicable_all cfg ms hd.ids c [] e h
+
 /-- (2) the forwarded positionals fit the selected method's range and every required keyword-only parameter
     was forwarded -/
 theorem C01_bind_arity (d : FnDef) (x : Dispatch) (b : List (Nat × Option Arg)) (h : methodBind d x = some b) :
